@@ -7,8 +7,6 @@
 //! of the integer `(x - 1) mod m` (the "+1 shift" that gives zero a unique representation); a bit
 //! is one field element 0/1; a byte one field element 0..255; a native chunk one field element.
 
-use std::fmt::Debug;
-
 use ff::{Field, PrimeField};
 use midnight_circuits::{
     field::{
@@ -870,5 +868,3 @@ where
     }
 }
 
-#[allow(dead_code)]
-pub fn _unused<T: Debug>(_: T) {}
